@@ -55,7 +55,7 @@ STACK = st.one_of(node(1), node(2), node(3))
 HIST = H.s_history(max_tests=4, with_control=True, test_kinds=("case", "placeholder", "errorholder"), max_ops=26)
 CASE = st.fixed_dictionaries({"stack": STACK, "history": HIST,
                               # several tests may share an id (id_mod) and may be the very same object reported again (reuse)
-                              "id_mod": st.sampled_from([99, 99, 99, 2, 1]), "reuse": st.booleans()})
+                              "id_mod": st.sampled_from([99, 99, 99, 2, 1]), "reuse": st.booleans(), "share_details": st.booleans()})
 
 
 def build(n, path, targets, tbts):
@@ -153,6 +153,7 @@ def run_case(spec):
     tbt_seen = [[] for _ in tbts]                  # per test: (tags at outcome, tags at stopTest)
 
     made = {}
+    shared_details = {} if spec.get("share_details") else None     # one dict object per distinct set of attachments
 
     def each_model(fn):
         for m in tbt_models:
@@ -196,7 +197,11 @@ def run_case(spec):
                 e["out_time"] = now
                 e["payload"] = op["payload"]
                 e["tbt_out"] = [frozenset(m.current) for m in tbt_models]
-                e["info"] = H.outcome_call(r, cur, op)
+                e["info"] = H.outcome_call(r, cur, op, shared=shared_details)
+                live_d = e["info"].get("details_live")
+                if live_d is not None and set(live_d) != set(e["info"]["details"]):
+                    vs.append(V("caller-args", "details-dict-mutated", "the details dict handed to %s has keys %r afterwards, was %r" % (
+                        H.METHOD[op["kind"]], sorted(live_d), sorted(e["info"]["details"]))))
             elif k == "stopTest":
                 reported[-1]["tags_at_stop"] = frozenset(tags.current)
                 reported[-1]["stop"] = now
